@@ -4,6 +4,7 @@ import os
 import random
 import subprocess
 import threading
+import time
 from concurrent.futures import ThreadPoolExecutor
 
 import vf
@@ -17,7 +18,7 @@ META = dict(
     text="TLC proves that the description-based algorithm of cmd_undo/cmd_redo (with op restore / op revert as "
          "ordinary operations) refines an editor-style undo stack of views for every command word over "
          "{op, undo, redo} up to 7 commands (9 thorough) and over {op, undo, redo, revert, restore k} up to 4 (5). "
-         "TLC then generates the words (all words of length 4 quick / 7 thorough, plus random words with "
+         "TLC then generates the words (all words of length 4 quick / 6 thorough, random words of length 7 / 9, plus random words with "
          "restore/revert); the driver runs each through the real jj binary (clean and dirty working copies, "
          "snapshot operations counted as operations) and projects, after every command, the view of the head "
          "operation through jj-lib; Trace_UndoStack judges each session against the abstract stack: exact "
@@ -109,6 +110,7 @@ class Truncated(Exception):
 class Replayer:
     def __init__(self, seed):
         self.seed = seed
+        self.deadline = None    # optional batches stop starting new steps after this time
         self.sessions = []      # finished session records
         self.commands = 0
         self.variants = {}
@@ -200,6 +202,8 @@ class Replayer:
                                       "argv": [a for _, a, _ in env.log[2:]]})
                 return
             for i, (key, child) in enumerate(kids):
+                if self.deadline is not None and time.time() > self.deadline:
+                    break       # time budget of an optional (random) batch used up: the subtree is not run
                 e2 = clone_env(env) if i < len(kids) - 1 else env
                 cpath = (path + " " + (child.sym if child.sym != "restore" else "restore%d" % child.k)).strip()
                 try:
@@ -223,7 +227,8 @@ class Replayer:
             if env is not None:
                 env.close()
 
-    def replay(self, behaviours, par):
+    def replay(self, behaviours, par, budget_s=None):
+        self.deadline = time.time() + budget_s if budget_s else None
         trie = build_trie(behaviours)
         env = self.new_env()
         tasks = []
@@ -258,26 +263,25 @@ def run(ctx):
     for bug in bugs:
         ctx.cov["tlc_runs"].append({"run": "negative:" + bug, "outcome": "fails as required (InvRefines)"})
     # 2. S->I: TLC generates the command words (with the expected result of every step)
-    batches = []
-    exh, r = vf.tlc_generate("MC_UndoStack", ctx.q("MC_UndoStack_gen4", "MC_UndoStack_gen7"), timeout=600)
+    L = ctx.q(4, 6)
+    exh, r = vf.tlc_generate("MC_UndoStack", "MC_UndoStack_gen%d" % L, timeout=600)
     ctx.add_mc(r, "generator:exhaustive")
-    batches.append(exh)
-    if not ctx.thorough:
-        rnd, r = vf.tlc_generate("MC_UndoStack", "MC_UndoStack_gen7", simulate="num=10", seed=ctx.seed + 1, timeout=300)
-        batches.append(rnd)
-    rr, r = vf.tlc_generate("MC_UndoStack", "MC_UndoStack_genrr", simulate="num=%d" % ctx.q(12, 150),
-                            seed=ctx.seed + 2, timeout=300)
-    batches.append(rr)
-    want = 3 ** ctx.q(4, 7)
+    want = 3 ** L
     if len(exh) != want:
         raise vf.ToolError("generator produced %d words, expected %d" % (len(exh), want))
-    # 3. replay through the real CLI, sharing prefixes (trie + repository copies)
+    rnd, r = vf.tlc_generate("MC_UndoStack", ctx.q("MC_UndoStack_gen7", "MC_UndoStack_gen9"),
+                             simulate="num=%d" % ctx.q(10, 200), seed=ctx.seed + 1, timeout=300)
+    rr, r = vf.tlc_generate("MC_UndoStack", "MC_UndoStack_genrr", simulate="num=%d" % ctx.q(12, 200),
+                            seed=ctx.seed + 2, timeout=300)
+    # 3. replay through the real CLI, sharing prefixes (trie + repository copies); the exhaustive batch
+    #    always runs completely, the random batches within a time budget
+    vf.build("jjcli")
+    vf.build("dump")
     rep = Replayer(ctx.seed)
-    expected = {}
-    for b in batches:
-        for beh in b:
-            expected[word_of(beh)] = beh
-        rep.replay(b, par=ctx.q(8, 12))
+    rep.replay(exh, par=ctx.q(8, 12))
+    n_exh = len(rep.sessions)
+    rep.replay(rr, par=ctx.q(8, 12), budget_s=ctx.q(25, 240))
+    rep.replay(rnd, par=ctx.q(8, 12), budget_s=ctx.q(20, 240))
     trace = ctx.path("c41.ndjson")
     with open(trace, "w") as f:
         for s in rep.sessions:
@@ -306,9 +310,9 @@ def run(ctx):
     ctx.cov["rule"] = ("sessions = maximal command words generated by TLC from MC_UndoStack (all %d words of length %d over "
                        "{op,undo,redo}; random words with revert/restore), replayed through the real jj CLI with prefix sharing; "
                        "evaluations = jj commands executed; non-trivial = distinct words with at least one successful "
-                       "undo/redo/restore/revert" % (want, ctx.q(4, 7)))
-    ctx.cov["exhaustive"] = True
-    ctx.cov["exhaustive_domain"] = "all command words of length %d over {op, undo, redo}" % ctx.q(4, 7)
+                       "undo/redo/restore/revert" % (want, L))
+    ctx.cov["exhaustive"] = n_exh >= want
+    ctx.cov["exhaustive_domain"] = "all command words of length %d over {op, undo, redo}" % L
     ctx.cov["step_kinds"] = {"%s/%s" % (a, "ok" if ok else "fails"): n for (a, ok), n in sorted(kinds.items())}
     ctx.cov["op_variants"] = rep.variants
     for s in rep.sessions[:2] + rep.sessions[-2:]:
